@@ -165,6 +165,12 @@ var Positions = []Position{
 	{"static property", "class", false, func(p *Prog, n string) { p.Ref(n, "class"); p.W("::$p;") }},
 	{"class constant", "class", false, func(p *Prog, n string) { p.Ref(n, "class"); p.W("::K;") }},
 	{"instanceof", "class", false, func(p *Prog, n string) { p.W("$x instanceof "); p.Ref(n, "class"); p.W(";") }},
+	// names inside the dynamic parts of a class reference (`new $a->{X::K}`, `new $a[X::K]`, `instanceof $a->{…}`)
+	{"class constant inside the braces of a dynamic new", "class", false, func(p *Prog, n string) { p.W("new $a->{"); p.Ref(n, "class"); p.W("::K};") }},
+	{"class constant inside the offset of a dynamic new", "class", false, func(p *Prog, n string) { p.W("new $a["); p.Ref(n, "class"); p.W("::K];") }},
+	{"class constant inside the braces of a dynamic instanceof", "class", false, func(p *Prog, n string) { p.W("$x instanceof $a->{"); p.Ref(n, "class"); p.W("::K};") }},
+	{"class constant inside the braces of a property fetch", "class", false, func(p *Prog, n string) { p.W("$a->{"); p.Ref(n, "class"); p.W("::K}->{"); p.Ref(n, "class"); p.W("::L}();") }},
+	{"class constant inside a variable-variable and a static property name", "class", false, func(p *Prog, n string) { p.W("${"); p.Ref(n, "class"); p.W("::K}; "); p.Ref(n, "class"); p.W("::${"); p.Ref(n, "class"); p.W("::L};") }},
 	{"catch", "class", false, func(p *Prog, n string) { p.W("try {} catch ("); p.Ref(n, "class"); p.W(" $e) {}") }},
 	{"multi catch", "class", true, func(p *Prog, n string) {
 		p.W("try {} catch (")
@@ -347,6 +353,29 @@ var NSForms = []NSForm{
 		p.Sc = NewScope("")
 		body()
 		p.W(" }")
+	}},
+	{"imports in an earlier global block; a named block between; namespace { }", func(p *Prog, imps []Import, body func()) {
+		p.W("namespace { " + texts(imps) + " } namespace Z { } namespace { ")
+		p.Sc = NewScope("")
+		body()
+		p.W(" }")
+	}},
+	{"imports in an earlier global block; namespace { }", func(p *Prog, imps []Import, body func()) {
+		p.W("namespace { " + texts(imps) + " } namespace { ")
+		p.Sc = NewScope("")
+		body()
+		p.W(" }")
+	}},
+	{"imports in an earlier block of the same named namespace; namespace A { }", func(p *Prog, imps []Import, body func()) {
+		p.W("namespace A { " + texts(imps) + " } namespace A { ")
+		p.Sc = NewScope("A")
+		body()
+		p.W(" }")
+	}},
+	{"imports in an earlier namespace A; namespace A; again", func(p *Prog, imps []Import, body func()) {
+		p.W("namespace A; " + texts(imps) + " namespace A; ")
+		p.Sc = NewScope("A")
+		body()
 	}},
 	{"after a declaration in the same namespace", func(p *Prog, imps []Import, body func()) {
 		p.W("namespace A; ")
